@@ -9,7 +9,7 @@ def pairs(maxlen):
 def c06(tier):
     n = 4 if tier == "quick" else 6
     jobs = [Job("h_c06::merge_pair", p, {"hash_order": "fixed"}, budget_s=1500, validate=(40 if tier == "quick" else 60)) for p in pairs(n)]
-    s2 = [(10, 0), (6, 1)] if tier == "quick" else [(10, 0), (6, 1), (10, 1)]
+    s2 = [(10, 0), (3, 1)] if tier == "quick" else [(10, 0), (3, 1), (4, 1), (6, 1)]
     for c in s2:
         jobs.append(Job("h_c12::merged_arrays", c, dict(S2), budget_s=3000, validate=30))
     return dict(
